@@ -34,11 +34,13 @@ def cases(draw):
         msgs.append({"kind": kind, "size": size})
     if not any(m["kind"] != "dwr" for m in msgs):
         msgs[0]["kind"] = "req"
-    seg = draw(st.sampled_from(["one", "aligned", "in-header", "in-avp-header", "bytewise", "random", "random", "coalesce-pairs"]))
+    seg = draw(st.sampled_from(["one", "aligned", "in-header", "header-prefix", "header-prefix", "in-avp-header", "bytewise", "random", "random",
+                                "coalesce-pairs"]))
+    hp = draw(st.integers(1, 3))
     cuts = draw(st.lists(st.integers(1, 40000), max_size=12)) if seg == "random" else []
     sched = draw(conc.schedules(300))
     return {"role": draw(st.sampled_from(["client", "server"])), "msgs": msgs, "seg": seg, "cuts": sorted(set(cuts)),
-            "consumers": draw(st.sampled_from([1, 1, 1, 2])), "sched": sched, "lines": draw(st.booleans()) if sched else False,
+            "hp": hp, "consumers": draw(st.sampled_from([1, 1, 1, 2])), "sched": sched, "lines": draw(st.booleans()) if sched else False,
             "consumers_first": draw(st.booleans()), "holds": draw(conc.holds())}
 
 
@@ -70,6 +72,9 @@ def segmentation(case, parts):
         cuts = bounds[:-1]
     elif seg == "coalesce-pairs":
         cuts = bounds[1:-1:2]
+    elif seg == "header-prefix":
+        # whole message(s) followed by only the first 1..3 bytes of the next header in the same read
+        cuts = [b + case.get("hp", 1) for b in bounds[:-1]]
     elif seg == "in-header":
         cuts = sorted(set([b - len(p) + 7 for b, (_, p) in zip(bounds, parts)] + [b - len(p) + 19 for b, (_, p) in zip(bounds, parts)]))
     elif seg == "in-avp-header":
@@ -203,7 +208,7 @@ def main(ctx):
     for path, rec in common.load_replays(PID):
         col.record(rec["case"], run_case(rec["case"]), nontrivial=True, classes=["replay"])
     ctx.required_classes = ["message-spans-reads", "messages-share-a-read", "prefix-with-switch", "preempted-at-source-line",
-                            "role=client", "role=server", "consumers=2", "seg=bytewise", "seg=in-header"]
+                            "role=client", "role=server", "consumers=2", "seg=bytewise", "seg=in-header", "seg=header-prefix"]
     ctx.assumptions = ["controlled world: TCP only, fake socket calibrated on the sandbox kernel; schedules are sampled (random walk / "
                        "PCT-like prefixes, optional source-line preemption) and completed fairly; liveness is judged within 12 virtual seconds",
                        "with two consumers, order is judged per consumer"]
